@@ -33,6 +33,7 @@ def main():
     ap.add_argument("--skip-tests", action="store_true")
     ap.add_argument("--scale", default="1")
     a = ap.parse_args()
+    a.src = os.path.abspath(a.src)
     meta = json.load(open(os.path.join(a.src, "meta.json")))
     props = [p for p in a.props.split(",") if p] or [meta["property"]]
     wt = f"/tmp/sv_{a.name}_{os.getpid()}"
@@ -84,8 +85,12 @@ def main():
                     if k in prev:
                         ran[k] = prev[k]
                 ran["first_evaluation_missed_by_check"] = True
-            shutil.copy(os.path.join(a.src, "patch.diff"), dst)
-            shutil.copy(demo, dst)
+            elif os.path.exists(old_meta):
+                if json.load(open(old_meta)).get("confirmed_by", {}).get("ran", {}).get("first_evaluation_missed_by_check"):
+                    ran["first_evaluation_missed_by_check"] = True
+            if os.path.abspath(a.src) != os.path.abspath(dst):
+                shutil.copy(os.path.join(a.src, "patch.diff"), dst)
+                shutil.copy(demo, dst)
             meta["confirmed_by"] = {"ran": ran, "how": "scratch git worktree of /repo HEAD; demo.py run without and with patch.diff; "
                                     "repository test suite with the patch; then `VERIF_REPO=<worktree> run.py <ID> --tier quick`"}
             meta["repo_head"] = sh(["git", "-C", "/repo", "log", "--format=%h", "-1"])[1].strip()
